@@ -113,7 +113,11 @@ func judge(out *pipe.Outcome, ix *pipe.Index) pipe.Verdict {
 			Identity: fmt.Sprintf("C11/%s/%s", cl, sc.Engine), Detail: detail, Witness: rig.Excerpt(evs, around, 10)})
 	}
 	// ---- plugin sessions: at most one run at a time
-	type sess struct{ open, tear int }
+	type sess struct {
+		open, tear int
+		used       bool
+		id         string
+	}
 	sessions := map[string][]*sess{} // connector -> sessions in order
 	tornEarly := map[string]bool{}
 	for i := range evs {
@@ -129,29 +133,56 @@ func judge(out *pipe.Outcome, ix *pipe.Index) pipe.Verdict {
 				continue
 			}
 			ss := sessions[e.Comp]
-			if len(ss) > 0 && ss[len(ss)-1].tear < 0 {
-				add("overlapping-runs", fmt.Sprintf("connector %s was opened again at event %d while its previous plugin session (opened at %d) was still live: two runs of the pipeline overlap", e.Comp, i, ss[len(ss)-1].open), ss[len(ss)-1].open, i)
-			}
-			sessions[e.Comp] = append(ss, &sess{open: i, tear: -1})
+			sessions[e.Comp] = append(ss, &sess{open: i, tear: -1, id: fmt.Sprintf("%s#%d", e.Comp, e.Sess)})
 		case rig.KSrcTeardown, rig.KDstTeardown:
 			ss := sessions[e.Comp]
 			if e.Note == "never-opened" {
 				tornEarly[fmt.Sprintf("%s#%d", e.Comp, e.Sess)] = true
 				continue
 			}
-			if len(ss) > 0 && ss[len(ss)-1].tear < 0 {
-				ss[len(ss)-1].tear = i
+			for _, x := range ss {
+				if x.id == fmt.Sprintf("%s#%d", e.Comp, e.Sess) && x.tear < 0 {
+					x.tear = i
+				}
 			}
 		}
 	}
 	src0 := sc.Topo.Sources[0].ID
-	liveAt := func(i int) *sess { // the source session live at log index i
+	// The built-in sandbox detaches unary plugin calls whose context was cancelled: an
+	// Open (and its Teardown) of a start-up that the engine already abandoned can run
+	// arbitrarily late. Only a session the engine actually USED (its Run stream carried
+	// records) is a run of the pipeline.
+	used := map[string]bool{}
+	for i := range evs {
+		if evs[i].Kind == rig.KSrcEmit || evs[i].Kind == rig.KDstWrite {
+			used[fmt.Sprintf("%s#%d", evs[i].Comp, evs[i].Sess)] = true
+		}
+	}
+	for _, ss := range sessions {
+		for _, x := range ss {
+			x.used = used[x.id]
+		}
+	}
+	liveAt := func(i int) *sess { // the (used) source session live at log index i
 		for _, s := range sessions[src0] {
-			if s.open < i && (s.tear < 0 || s.tear > i) {
+			if s.used && s.open < i && (s.tear < 0 || s.tear > i) {
 				return s
 			}
 		}
 		return nil
+	}
+	// at most one run at a time: two USED sessions of one connector never overlap
+	for comp, ss := range sessions {
+		var prev *sess
+		for _, s := range ss {
+			if !s.used {
+				continue
+			}
+			if prev != nil && (prev.tear < 0 || prev.tear > s.open) {
+				add("overlapping-runs", fmt.Sprintf("connector %s was opened again at event %d while its previous plugin session (opened at %d, in use) was still live: two runs of the pipeline overlap", comp, s.open, prev.open), prev.open, s.open)
+			}
+			prev = s
+		}
 	}
 	statusAt := func(i int) string {
 		for q := i; q >= 0; q-- {
@@ -202,7 +233,16 @@ func judge(out *pipe.Outcome, ix *pipe.Index) pipe.Verdict {
 			// "reported as running" = the status the API reports (in-memory) at the call AND at the return
 			if live != nil && evs[c.ctl].Note == "Running" && evs[c.ret].Note == "Running" && statusAt(c.ctl) == "Running" && statusStable(c.ctl, c.ret, "Running") && (live.tear < 0 || live.tear > c.ret) {
 				v.Stats["stops_on_live_running_pipeline"]++
-				if c.err != "" && !strings.Contains(c.err, "already triggered") && !strings.Contains(c.err, "stop already") {
+				// the run must demonstrably keep working after the refused call (a run that is
+				// ending by itself at that moment may refuse the stop)
+				keptWorking := false
+				for q := c.ret; q < len(evs) && (live.tear < 0 || q < live.tear); q++ {
+					if evs[q].Kind == rig.KDstWrite || evs[q].Kind == rig.KSrcAck {
+						keptWorking = true
+						break
+					}
+				}
+				if c.err != "" && keptWorking && !strings.Contains(c.err, "already triggered") && !strings.Contains(c.err, "stop already") {
 					add("stop-refused-on-live-run", fmt.Sprintf("%s at event %d: the pipeline is reported Running and its run (source session opened at %d) is live, yet the call returned %q", c.op, c.ctl, live.open, c.err), live.open, c.ctl, c.ret)
 				}
 			}
@@ -386,9 +426,9 @@ func errClass(e string) string {
 	switch {
 	case e == "":
 		return "ok"
-	case strings.Contains(e, "not running"):
+	case strings.Contains(e, "pipeline not running"):
 		return "notrunning"
-	case strings.Contains(e, "already running") || strings.Contains(e, "pipeline is running") || strings.Contains(e, "running"):
+	case strings.Contains(e, "pipeline is running"):
 		return "running"
 	default:
 		return "other"
